@@ -10,6 +10,7 @@ import ApolloModel.Proofs.ExpandSelections2
 import ApolloModel.Proofs.ExecValues
 import ApolloModel.Proofs.ExecWalk2
 import ApolloModel.Proofs.StandaloneWalk3
+import ApolloModel.Proofs.ExecValuesDoc
 /-
 C17 — Executable validation agrees with the specification.
 
@@ -55,6 +56,10 @@ INVENTORY — every rule of the oracle harness/src/specexec.rs and its Lean coun
                                             own definition and its operation's variables, every reachable spread is possible), typed_walk_quiet_iff_reachable_sites,
                                             walk_reports_iff_reachable_site (structural walk: reported ⇔ a reachable site reports it), validate_operation_walk;
                                             soundness + completeness, fuel shown sufficient, no hypothesis on the document   c17.vars/.frags/.fields/.args
+  THE TWO VALUE MODELS                       argument_variable_models_agree, argument_undefined_variable_models_agree, argument_disallowed_usage_models_agree
+                                            (argDiags on rvalOf v vs argValueDiags on v), typed_diag_iff_reachable_argument, values_undefined_variable_iff_doc,
+                                            values_disallowed_usage_iff_doc, values_rule_iff_spec_doc, values_quiet_doc; walk_fuel_suffices,
+                                            walk_reports_iff_reachable_site_all   c17.vars, c17.values
   §5.7.1–3 DirectivesAreDefined / InValidLocations / UniquePerLocation
                                             C14 directive_applications_rule_iff_spec on the shared `dirDiags` (cited)   c20.schema
   §5.8.1   VariableUniqueness               variable_uniqueness_iff_spec                  c17.vars
@@ -646,6 +651,103 @@ theorem validate_operation_walk (p : Standalone.Params) (sc : Standalone.Schema)
   Standalone.Walk.validateOp_walk p sc doc o
 
 end DocumentLevel
+
+/-! DOCUMENT LEVEL, values: the link between the two models of the per-argument check (`rvalOf` forgets the scalar
+    literals; `SchemaRel` relates the two views of the schema; `Presents` says that `(xvars, ty, hd, v)` is a full-value
+    presentation of an argument the walk checks) and the variable-related part of §5.6 / §5.8.3 / §5.8.5 for the
+    whole document. -/
+section ValuesDocumentLevel
+open Apollo.ExecValues Apollo.ExecRules.Mem
+
+/-- a variable given directly as the value: the two models report the same, diagnostic for diagnostic -/
+theorem argument_variable_models_agree (s : RSchema) (S : ValueCheck.Schema) (h : SchemaRel s S) (xvars : List XVarDef)
+    (an : String) (ty : ValueCheck.Ty) (hd : Bool) (n : String) :
+    (argDiags s (xvars.map rvarOf) (inDefOf an ty hd) { name := an, value := rvalOf (.variable n) }).map tdiagX =
+      argValueDiags S xvars ty hd (.variable n) :=
+  arg_variable_agrees s S h xvars an ty hd n
+
+/-- `UndefinedVariable` for one argument, any value (variables at any depth of lists, input objects, custom-scalar
+    literals): `argDiags` on the abstracted value reports one iff `argValueDiags` on the full value does -/
+theorem argument_undefined_variable_models_agree (s : RSchema) (S : ValueCheck.Schema) (hrel : SchemaRel s S)
+    (xvars : List XVarDef) (an : String) (ty : ValueCheck.Ty) (hd : Bool) (v : ValueCheck.Value) :
+    HasUV (argDiags s (xvars.map rvarOf) (inDefOf an ty hd) { name := an, value := rvalOf v }) ↔
+      XDiag.value .undefinedVariable ∈ argValueDiags S xvars ty hd v :=
+  arg_undefinedVariable_agrees s S hrel xvars an ty hd v
+
+/-- `DisallowedVariableUsage` for one argument -/
+theorem argument_disallowed_usage_models_agree (s : RSchema) (S : ValueCheck.Schema) (xvars : List XVarDef)
+    (an : String) (ty : ValueCheck.Ty) (hd : Bool) (v : ValueCheck.Value) :
+    XDiag.disallowedVariableUsage ∈ argValueDiags S xvars ty hd v ↔
+      ∃ n, v = .variable n ∧
+        argDiags s (xvars.map rvarOf) (inDefOf an ty hd) { name := an, value := rvalOf v } = [.disallowedVariableUsage n] :=
+  arg_disallowed_agrees s S xvars an ty hd v
+
+/-- the typed rules, DIAGNOSTIC BY DIAGNOSTIC, for the document (membership form of `walk_meets_every_argument`, no
+    hypothesis): `d` is reported iff the per-argument check reports it for an argument some operation checks (`OpArg`:
+    a directive of the operation, of one of its variable definitions, or a field / directive it reaches), or a spread
+    it reaches is impossible -/
+theorem typed_diag_iff_reachable_argument (s : RSchema) (ast : RAst) (d : TDiag) :
+    d ∈ typedDiags s ast ↔
+      ∃ o ∈ (ExecRules.build s ast).ops,
+        (∃ vars df a, OpArg s (ExecRules.build s ast) o vars df a ∧ d ∈ argDiags s vars df a) ∨
+          (∃ t c, Reaches s (ExecRules.build s ast) (s.root o.ty) o.sels (.spread t c) ∧ d ∈ spreadDiags s t c) :=
+  typedDiags_mem_iff s ast d
+
+/-- §5.8.3 for the document in terms of the FULL per-argument check -/
+theorem values_undefined_variable_iff_doc (s : RSchema) (S : ValueCheck.Schema) (hrel : SchemaRel s S) (ast : RAst)
+    (hp : ∀ o ∈ (ExecRules.build s ast).ops, ∀ vars df a, OpArg s (ExecRules.build s ast) o vars df a →
+      ∃ xvars ty hd v, Presents vars df a xvars ty hd v) :
+    (∃ n, TDiag.undefinedVariable n ∈ typedDiags s ast) ↔
+      ∃ o ∈ (ExecRules.build s ast).ops, ∃ vars df a xvars ty hd v, OpArg s (ExecRules.build s ast) o vars df a ∧
+        Presents vars df a xvars ty hd v ∧ XDiag.value .undefinedVariable ∈ argValueDiags S xvars ty hd v :=
+  values_undefinedVariable_iff_doc s S hrel ast hp
+
+/-- §5.8.5 for the document in terms of the FULL per-argument check -/
+theorem values_disallowed_usage_iff_doc (s : RSchema) (S : ValueCheck.Schema) (ast : RAst)
+    (hp : ∀ o ∈ (ExecRules.build s ast).ops, ∀ vars df a, OpArg s (ExecRules.build s ast) o vars df a →
+      ∃ xvars ty hd v, Presents vars df a xvars ty hd v) :
+    (∃ n, TDiag.disallowedVariableUsage n ∈ typedDiags s ast) ↔
+      ∃ o ∈ (ExecRules.build s ast).ops, ∃ vars df a xvars ty hd v, OpArg s (ExecRules.build s ast) o vars df a ∧
+        Presents vars df a xvars ty hd v ∧ XDiag.disallowedVariableUsage ∈ argValueDiags S xvars ty hd v :=
+  values_disallowed_iff_doc s S ast hp
+
+/-- **`values_rule_iff_spec`, variable-related part, document level**: `walk_meets_every_argument` composed with the
+    bridge and with `argument_value_iff_spec` — if every argument any operation reaches has a full-value presentation
+    satisfying `ExecArgOK` (closed schema, defined input type), the document reports neither `UndefinedVariable` nor
+    `DisallowedVariableUsage`; and a quiet document means the full check reports neither at any presented reachable
+    argument (`values_quiet_doc`) -/
+theorem values_rule_iff_spec_doc (s : RSchema) (S : ValueCheck.Schema) (hrel : SchemaRel s S) (hS : ValueCheck.Spec.Closed S)
+    (ast : RAst)
+    (hall : ∀ o ∈ (ExecRules.build s ast).ops, ∀ vars df a, OpArg s (ExecRules.build s ast) o vars df a →
+      ∃ xvars ty hd v, Presents vars df a xvars ty hd v ∧ ValueCheck.Spec.Defined S ty ∧ ExecArgOK S xvars ty hd v) :
+    ∀ n, TDiag.undefinedVariable n ∉ typedDiags s ast ∧ TDiag.disallowedVariableUsage n ∉ typedDiags s ast :=
+  values_rule_spec_doc s S hrel hS ast hall
+
+theorem values_quiet_doc (s : RSchema) (S : ValueCheck.Schema) (hrel : SchemaRel s S) (ast : RAst)
+    (hq : typedDiags s ast = []) :
+    ∀ o ∈ (ExecRules.build s ast).ops, ∀ vars df a xvars ty hd v, OpArg s (ExecRules.build s ast) o vars df a →
+      Presents vars df a xvars ty hd v →
+        XDiag.disallowedVariableUsage ∉ argValueDiags S xvars ty hd v ∧
+          XDiag.value .undefinedVariable ∉ argValueDiags S xvars ty hd v :=
+  (values_rule_variables_doc s S hrel ast).1 hq
+
+/-- the structural walk never reports the model's fuel marker: the number of fragment definitions is enough fuel for
+    every document … -/
+theorem walk_fuel_suffices (p : Standalone.Params) (sc : Standalone.Schema) (doc : Standalone.BuiltDoc)
+    (ty : Option Nat) (t : Standalone.Sels) : Standalone.Diag.outOfFuel ∉ Standalone.Walk.walkOut p sc doc ty t :=
+  Standalone.Walk.walk_fuel_suffices p sc doc ty t
+
+/-- … so `walk_reports_iff_reachable_site` holds for EVERY diagnostic -/
+theorem walk_reports_iff_reachable_site_all (p : Standalone.Params) (sc : Standalone.Schema) (doc : Standalone.BuiltDoc)
+    (ty : Option Nat) (t : Standalone.Sels) (d : Standalone.Diag) :
+    d ∈ Standalone.Walk.walkOut p sc doc ty t ↔
+      ∃ site, Standalone.Walk.Reaches sc doc ty t site ∧ d ∈ site.diags p sc doc :=
+  Standalone.Walk.walk_mem_iff_all p sc doc ty t d
+
+/-- `SchemaRel` is inhabited (kernel-checked): the schema without definitions, i.e. the built-in scalars -/
+theorem schema_rel_witness : SchemaRel ⟨[], none, none, none, []⟩ ⟨[]⟩ := schemaRel_builtins
+
+end ValuesDocumentLevel
 
 /-- THE COVERED RULES, TOGETHER (partial: see the inventory at the top for what stays outside —
     the directive rules (C14), fragment cycles (C21), merging and subscriptions (sections 1–5),
